@@ -164,8 +164,15 @@ class SchedImpl:
         if d is None:
             return '-'
         if self.tz != 'UTC':
-            # a naive local datetime is ambiguous in a repeated hour: read the instant itself
-            return str(ns_of_instant(c._job.next_run) - self.base)
+            # a naive local datetime is ambiguous in a repeated hour: read the instant itself, and check that the
+            # public API shows the wall clock reading of that instant in the system zone (independent conversion)
+            ns = ns_of_instant(c._job.next_run)
+            from zoneinfo import ZoneInfo
+            want = (dtm.datetime(1970, 1, 1, tzinfo=dtm.timezone.utc) + dtm.timedelta(microseconds=ns // 1000)) \
+                .astimezone(ZoneInfo(self.tz)).replace(tzinfo=None)
+            if d != want:
+                return f'API-MISMATCH:{d.isoformat()}!={want.isoformat()}'
+            return str(ns - self.base)
         # TZ is UTC: the naive local datetime of the public API is UTC
         us = (d - dtm.datetime(1970, 1, 1)) // dtm.timedelta(microseconds=1)
         return str(us * 1000 - self.base)
